@@ -250,9 +250,20 @@ def _write_geff(case, path: Path) -> None:
         else:  # "vec"
             arr = np.array(vals, dtype=np.float64).reshape(len(vals), -1)
         props[p] = {"values": arr, "missing": missing}
+    eprops = {}
+    for pname, d in (case.get("eprops") or {}).items():
+        vals = d["values"]
+        missing = None
+        if any(v is None for v in vals):
+            missing = np.array([v is None for v in vals], dtype=bool)
+            fill = next((v for v in vals if v is not None), 0.0)
+            vals = [fill if v is None else v for v in vals]
+        eprops[pname] = {"values": np.array(vals, dtype=np.int64 if d["kind"] == "int" else np.float64), "missing": missing}
     md = ft["cum"](metadata=None, is_directed=True)
     md = ft["aup"](md, [ft["cpm"](identifier=k, prop_data=v) for k, v in props.items()], c_type="node")
-    ft["write_arrays"](path, ids, props, edges, {}, md, structure_validation=False)
+    if eprops:
+        md = ft["aup"](md, [ft["cpm"](identifier=k, prop_data=v) for k, v in eprops.items()], c_type="edge")
+    ft["write_arrays"](path, ids, props, edges, eprops, md, structure_validation=False)
 
 
 def run_real(case, timeout: float = 30.0) -> dict[str, Any]:
@@ -285,7 +296,8 @@ def run_real(case, timeout: float = 30.0) -> dict[str, Any]:
                 path = Path(tmp) / "g.zarr"
                 src = source_of_geff(case)
                 _write_geff(case, path)
-                tracks = ft["import_from_geff"](path, node_name_map=nm)
+                kw = {"edge_name_map": dict(case["enm"])} if case.get("enm") else {}
+                tracks = ft["import_from_geff"](path, node_name_map=nm, **kw)
         except _Hang:
             return {"status": "hang", "src": locals().get("src")}
         except Exception as e:  # noqa: BLE001
@@ -301,6 +313,7 @@ def run_real(case, timeout: float = 30.0) -> dict[str, Any]:
         bad_ids = [k for k in nodes if not isinstance(k, int)]
         return {"status": "ok", "nodes": nodes, "edges": sorted(((_nid(u), _nid(v)) for u, v in g.edges),
                                 key=lambda e: tuple((isinstance(x, str), x) for x in e)),
+                "eattrs": {(_nid(u), _nid(v)): dict(d) for u, v, d in g.edges(data=True)},
                 "bad_ids": bad_ids, "src": src}
     finally:
         signal.setitimer(signal.ITIMER_REAL, 0)
@@ -521,6 +534,25 @@ def oracle(case, real) -> list[tuple[str, str]]:
                             f"'{case['nm'][k]}' holds valid ids)" if special else
                             f"node {nid} attribute '{k}': {gv} expected {ev}"))
                 return out
+    # edge properties (GEFF stores): every mapped property on every edge, under the standard key
+    if case.get("enm") and "eattrs" in real:
+        for key, pname in case["enm"].items():
+            vals = case["eprops"][pname]["values"]
+            for (u, v), sv in zip(case["edges"], vals):
+                got = real["eattrs"].get((int(u), int(v)))
+                if got is None:
+                    continue  # reported above as edge-lost
+                if sv is None:
+                    if got.get(key) is not None and not _isna(got.get(key)):
+                        out.append((f"C12|{kind}|edge-attr-invented", f"edge {(u, v)} has '{key}' = {got.get(key)!r}; the source has no value there"))
+                        return out
+                    continue
+                if key not in got or got[key] is None:
+                    out.append((f"C12|{kind}|edge-attr-missing", f"edge {(u, v)} has no attribute '{key}' (source property '{pname}' = {sv})"))
+                    return out
+                if val_of(got[key]) != val_of(sv):
+                    out.append((f"C12|{kind}|edge-attr-differs", f"edge {(u, v)} attribute '{key}': {val_of(got[key])} expected {val_of(sv)}"))
+                    return out
     return out
 
 
@@ -1063,13 +1095,35 @@ def gen_geff(rng: random.Random, intensify: bool = False) -> dict:
     case = {"kind": "geff", "node_ids": [ids[i] for i in perm], "edges": edges, "props": props,
             "prop_kinds": kinds, "prop_values": {p: [values[p][i] for i in perm] for p in props},
             "optional": optional, "nm": nm}
+    # edge properties with their own key map (renamed / same name / partly missing values)
+    if edges and rng.random() < 0.5:
+        eprops: dict[str, Any] = {}
+        enm: dict[str, str] = {}
+        for key in rng.sample(["w", "iou", "conf"], rng.randint(1, 2)):
+            pname = key if rng.random() < 0.4 else key + "_e"
+            kind = rng.choice(["float", "int", "float-opt"])
+            if kind == "int":
+                vals: list = [rng.randint(-3, 90) for _ in edges]
+            else:
+                vals = [_float(rng) for _ in edges]
+            if kind == "float-opt" and len(edges) > 1:
+                for j in rng.sample(range(len(edges)), rng.randint(1, len(edges) - 1)):
+                    vals[j] = None
+            eprops[pname] = {"kind": "int" if kind == "int" else "float", "values": vals}
+            enm[key] = pname
+        if rng.random() < 0.3:
+            eprops["unmapped_e"] = {"kind": "float", "values": [_float(rng) for _ in edges]}
+        case["eprops"], case["enm"] = eprops, enm
     case["_tags"] = {"ids": "int", "enc": "geff", "renamed_ids": False, "nd": nd, "n": n,
+                     "edge_props": len(case.get("eprops", {})),
                      "links": len(edges), "list_keys": sum(1 for v in nm.values() if isinstance(v, list)) - (posmode == "list"),
                      "malformation": "none", "posmode": posmode, "tl": tl, "division": has_div}
     return case
 
 
 def inject_geff(rng: random.Random, case: dict) -> dict | None:
+    case.pop("eprops", None)
+    case.pop("enm", None)
     nm = case["nm"]
     ids = case["node_ids"]
     n = len(ids)
@@ -1268,6 +1322,10 @@ def _shard(args) -> Result:
         if tags.get("posmode"):
             res.count(f"geff-pos:{tags['posmode']}")
         res.count("links", tags["links"])
+        if case.get("eprops") and tags["malformation"] == "none":
+            res.count(f"geff-edge-properties:{len(case['eprops'])}")
+        if case.get("index") is not None:
+            res.count("dataframe-index:custom")
         res.count(f"track-lineage-columns:{tags.get('tl', 'none')}")
         if tags.get("division"):
             res.count("cases-with-division")
